@@ -432,7 +432,7 @@ def check_commute(cq):
                     ob.reason = f"{ob.reason}; witness: {w}"
                 else:
                     ob.status = BOUNDED_OK
-                    ob.bounded = ("Bernstein's condition fails; no order dependence found for 9 base builders x 15 x 15 "
+                    ob.bounded = ("Bernstein's condition fails; no order dependence found for 9 base builders x 16 x 16 "
                                   "argument tuples x both call orders (replaylib.oracles.commute)")
                     ob.backend = "bounded-witness-search"
     return obs
